@@ -1,4 +1,5 @@
 import KvarnModel.Props.C07
+import KvarnModel.Props.C02
 /-! C07, the parser against the request grammar: **a rendered request parses back to its parts**, whatever follows it
 on the stream — method, target, version, every header (name lower-cased, value byte for byte), and the position where
 the body starts. Together with `readHeaders_spec`/`complete_head_needs_no_eof` (the head arrives whole for every
@@ -17,33 +18,47 @@ theorem hstep_name (orig : Bytes) (b : UInt8) (rest : Bytes) (pos : Nat) (st : H
     hstep orig b rest pos st = .cont { st with lf := 0 } := by
   simp [hstep, h1, h2, h3, h4, hv]
 
-/-- the colon, when a space follows -/
+/-- the colon, when a space follows: the name ends, the loop waits for the space -/
 theorem hstep_colon (orig rest : Bytes) (pos : Nat) (st : HSt) (hv : st.inValue = false) :
     hstep orig COLON (SP :: rest) pos st = .cont { st with lf := 0, nameEnd := pos } := by
   simp [hstep, hv, COLON, CR, LF, SP]
 
-/-- the space after the colon; the value does not start with a space -/
-theorem hstep_sp (orig rest : Bytes) (c : UInt8) (pos : Nat) (st : HSt) (hv : st.inValue = false) (hc : c ≠ SP)
-    (hp : pos ≤ orig.length) :
-    hstep orig SP (c :: rest) pos st = .cont { st with lf := 0, inValue := true, valueStart := pos + 1 } := by
-  have hc' : ¬ c = 32 := hc
-  have hp' : ¬ orig.length < pos := by omega
-  simp [hstep, hv, COLON, CR, LF, SP, skipWhile, hc', hp']
+/-- the colon, when no space follows (the value, a tab, or the line ending): the value starts after the optional
+whitespace -/
+theorem hstep_colon_direct (orig rest : Bytes) (pos : Nat) (st : HSt) (hv : st.inValue = false)
+    (hh : rest.head? ≠ some SP) (hp : pos + 1 ≤ orig.length) :
+    hstep orig COLON rest pos st =
+      .cont { st with lf := 0, nameEnd := pos, inValue := true, valueStart := pos + 1 + skipWhile isOws rest } := by
+  have hp' : ¬ orig.length < pos + 1 := by omega
+  have hh' : ¬ rest.head? = some 32 := hh
+  simp [hstep, hv, COLON, CR, LF, SP, hh', hp']
 
-/-- a byte of a header value -/
+/-- the space after the colon: the value starts after the optional whitespace -/
+theorem hstep_sp (orig rest : Bytes) (pos : Nat) (st : HSt) (hv : st.inValue = false)
+    (hall : (SP :: rest).all isOws = false) (hp : pos ≤ orig.length) :
+    hstep orig SP rest pos st =
+      .cont { st with lf := 0, inValue := true, valueStart := pos + skipWhile isOws (SP :: rest) } := by
+  have hp' : ¬ orig.length < pos := by omega
+  have hall' : ¬ ((SP :: rest).all isOws = true) := by simp [hall]
+  unfold hstep
+  simp only [hv, COLON, CR, LF, SP] at hall' ⊢
+  simp [hp', hall']
+
+/-- a byte of a header value (also the optional whitespace around it) -/
 theorem hstep_value (orig : Bytes) (b : UInt8) (rest : Bytes) (pos : Nat) (st : HSt) (hv : st.inValue = true)
     (h1 : b ≠ CR) (h2 : b ≠ LF) : hstep orig b rest pos st = .cont { st with lf := 0 } := by
   simp [hstep, h1, h2, hv]
 
-/-- the LF that ends a header line `name: value CR LF` -/
+/-- the LF that ends a header line -/
 theorem hstep_lf (orig rest : Bytes) (pos : Nat) (st : HSt) (name : Bytes) (hv : st.inValue = true) (hl : st.lf = 0)
     (hn : sliceGet orig st.nameStart st.nameEnd = some name) (hvn : validName name = true)
-    (hcr : orig[pos - 1]? = some CR) (hgt : pos > st.valueStart) (hlen : pos ≤ orig.length)
-    (hvv : validValue (extract orig st.valueStart (pos - 1)) = true) :
+    (hle : st.valueStart ≤ pos) (hlen : pos ≤ orig.length)
+    (hvv : validValue (extract orig st.valueStart (valueEndOf orig st.valueStart pos)) = true) :
     hstep orig LF rest pos st =
-      .cont { st with lf := 1, inValue := false, nameStart := pos + 1, hdrs := hinsert st.hdrs name (extract orig st.valueStart (pos - 1)) } := by
-  have h1 : ¬ (st.valueStart > pos - 1 ∨ pos - 1 > orig.length) := by omega
-  simp [hstep, hv, hl, hn, hvn, hcr, hgt, hvv, h1, COLON, CR, LF, SP]
+      .cont { st with lf := 1, inValue := false, nameStart := pos + 1, hdrs := hinsert st.hdrs name (extract orig st.valueStart (valueEndOf orig st.valueStart pos)) } := by
+  have hb := valueEndOf_bounds orig st.valueStart pos hle hlen
+  have h1 : ¬ (st.valueStart > valueEndOf orig st.valueStart pos ∨ valueEndOf orig st.valueStart pos > orig.length) := by omega
+  simp [hstep, hv, hl, hn, hvn, hvv, h1, COLON, CR, LF, SP]
 
 /-- the LF of the blank line -/
 theorem hstep_end (orig rest : Bytes) (pos : Nat) (st : HSt) (hl : st.lf = 1) :
@@ -88,15 +103,26 @@ theorem hgo_value_seg (orig : Bytes) : ∀ (seg rest : Bytes) (pos : Nat) (st : 
     simp only [List.length_cons]
     congr 1; omega
 
-/-- one header line as the grammar writes it -/
-def hline (n v : Bytes) : Bytes := n ++ [COLON, SP] ++ v ++ [CR, LF]
+/-- one header line as the grammar writes it: `name ":" OWS value OWS` and CRLF or a bare LF -/
+structure HL where
+  n : Bytes
+  v : Bytes
+  o1 : Bytes := [SP]
+  o2 : Bytes := []
+  crlf : Bool := true
 
-structure HeaderOk (n v : Bytes) : Prop where
-  name : validName n = true
-  nameBytes : ∀ b ∈ n, b ≠ CR ∧ b ≠ LF ∧ b ≠ COLON ∧ b ≠ SP
-  value : validValue v = true
-  valueBytes : ∀ b ∈ v, b ≠ CR ∧ b ≠ LF
-  noLeadingSpace : v.head? ≠ some SP
+def HL.eol (h : HL) : Bytes := if h.crlf then [CR, LF] else [LF]
+def HL.bytes (h : HL) : Bytes := h.n ++ [COLON] ++ h.o1 ++ h.v ++ h.o2 ++ h.eol
+
+structure HL.Ok (h : HL) : Prop where
+  name : validName h.n = true
+  nameBytes : ∀ b ∈ h.n, b ≠ CR ∧ b ≠ LF ∧ b ≠ COLON ∧ b ≠ SP
+  value : validValue h.v = true
+  valueBytes : ∀ b ∈ h.v, b ≠ CR ∧ b ≠ LF
+  ows1 : ∀ b ∈ h.o1, isOws b = true
+  ows2 : ∀ b ∈ h.o2, isOws b = true
+  noOuterOws : h.v.head?.all (!isOws ·) = true ∧ h.v.getLast?.all (!isOws ·) = true
+  emptyValue : h.v = [] → h.o2 = []
 
 theorem extract_mid (x y z : Bytes) : extract (x ++ y ++ z) x.length (x.length + y.length) = y := by
   simp [extract, List.append_assoc]
@@ -108,80 +134,230 @@ theorem sliceGet_mid (x y z : Bytes) : sliceGet (x ++ y ++ z) x.length (x.length
   rw [if_pos this]
   simp [List.append_assoc]
 
-/-- **one header line**: the loop leaves it with the header inserted and the next name starting right after it -/
-theorem hgo_line (pre post n v : Bytes) (hok : HeaderOk n v) (st : HSt) (hv : st.inValue = false)
+theorem ows_not_crlf (b : UInt8) (h : isOws b = true) : b ≠ CR ∧ b ≠ LF := by
+  simp only [isOws, Bool.or_eq_true, beq_iff_eq] at h
+  rcases h with rfl | rfl <;> decide
+
+/-- optional whitespace is skipped up to the first other byte -/
+theorem skipWhile_ows (o : Bytes) (ho : ∀ b ∈ o, isOws b = true) (c : UInt8) (r : Bytes) (hc : isOws c = false) :
+    skipWhile isOws (o ++ c :: r) = o.length := by
+  induction o with
+  | nil => simp [skipWhile, hc]
+  | cons a o ih =>
+    simp only [List.cons_append, skipWhile, ho a (by simp), ↓reduceIte, List.length_cons]
+    rw [ih (fun b hb => ho b (by simp [hb]))]
+
+/-- trailing optional whitespace does not count -/
+theorem trimEndLen_append (v o : Bytes) (ho : ∀ b ∈ o, isOws b = true) (hv : v.getLast?.all (!isOws ·) = true) :
+    trimEndLen (v ++ o) = v.length := by
+  unfold trimEndLen
+  rw [List.reverse_append]
+  have h1 : (o.reverse ++ v.reverse).dropWhile isOws = v.reverse.dropWhile isOws := by
+    have : ∀ (l : Bytes), (∀ b ∈ l, isOws b = true) → ∀ m : Bytes, (l ++ m).dropWhile isOws = m.dropWhile isOws := by
+      intro l
+      induction l with
+      | nil => intro _ m; rfl
+      | cons a l ih =>
+        intro hl m
+        rw [List.cons_append, List.dropWhile_cons, hl a (by simp)]
+        exact ih (fun b hb => hl b (by simp [hb])) m
+    exact this o.reverse (fun b hb => ho b (by simpa using hb)) v.reverse
+  rw [h1]
+  cases hr : v.reverse with
+  | nil => simp at hr; simp [hr]
+  | cons d r =>
+    have hd : v.getLast? = some d := by
+      rw [← List.head?_reverse, hr]; rfl
+    rw [hd] at hv
+    simp only [Option.all_some, Bool.not_eq_true'] at hv
+    rw [List.dropWhile_cons, hv]
+    simp only [Bool.false_eq_true, ↓reduceIte]
+    rw [← hr]; simp
+
+/-- **one header line**, with any optional whitespace around the value and either line ending: the loop leaves it with
+the header inserted (value without the whitespace) and the next name starting right after it -/
+theorem hgo_line (pre post : Bytes) (h : HL) (hok : h.Ok) (st : HSt) (hv : st.inValue = false)
     (hns : st.nameStart = pre.length) :
-    ∃ st', hgo (pre ++ hline n v ++ post) (hline n v ++ post) pre.length st =
-        hgo (pre ++ hline n v ++ post) post (pre.length + (hline n v).length) st' ∧
-      st'.inValue = false ∧ st'.lf = 1 ∧ st'.nameStart = pre.length + (hline n v).length ∧
-      st'.hdrs = hinsert st.hdrs n v := by
-  generalize horig : pre ++ hline n v ++ post = orig
-  have hne : n ≠ [] := by
+    ∃ st', hgo (pre ++ h.bytes ++ post) (h.bytes ++ post) pre.length st =
+        hgo (pre ++ h.bytes ++ post) post (pre.length + h.bytes.length) st' ∧
+      st'.inValue = false ∧ st'.lf = 1 ∧ st'.nameStart = pre.length + h.bytes.length ∧
+      st'.hdrs = hinsert st.hdrs h.n h.v := by
+  generalize horig : pre ++ h.bytes ++ post = orig
+  have hne : h.n ≠ [] := by
     have := hok.name; unfold validName at this
-    intro e; subst e; simp at this
-  -- the name
-  unfold hline
-  simp only [List.append_assoc]
-  rw [hgo_name_seg orig n _ pre.length st hne hv hok.nameBytes]
-  -- the colon and the space
-  rw [List.cons_append, List.cons_append, hgo_cons_cont orig COLON _ _ _ _ (hstep_colon orig _ _ { st with lf := 0 } hv)]
-  have hvhead : ∃ c r, v ++ ([CR, LF] ++ post) = c :: r ∧ c ≠ SP := by
-    cases hvv : v with
-    | nil => exact ⟨CR, LF :: post, by simp, by decide⟩
+    intro e; rw [e] at this; simp at this
+  -- what follows the optional whitespace after the colon: the value, or the line ending — never whitespace
+  have htail : ∃ c r, h.v ++ h.o2 ++ h.eol ++ post = c :: r ∧ isOws c = false := by
+    cases hvv : h.v with
+    | nil =>
+      have := hok.emptyValue hvv
+      rw [this]
+      unfold HL.eol
+      split
+      · exact ⟨CR, LF :: post, by simp, by decide⟩
+      · exact ⟨LF, post, by simp, by decide⟩
     | cons c r =>
-      refine ⟨c, r ++ ([CR, LF] ++ post), by simp, ?_⟩
-      have := hok.noLeadingSpace; rw [hvv] at this; simpa using this
-  obtain ⟨c, r, hcr, hcsp⟩ := hvhead
-  simp only [List.nil_append]
-  rw [hcr]
-  have hlen : pre.length + n.length + 1 ≤ orig.length := by
-    rw [← horig]; simp only [hline, List.length_append, List.length_cons, List.length_nil]; omega
-  rw [hgo_cons_cont orig SP _ _ _ _ (hstep_sp orig r c _ { st with lf := 0, nameEnd := pre.length + n.length } hv hcsp hlen)]
-  rw [← hcr]
-  -- the value, CR, LF
-  rw [hgo_value_seg orig v _ _ _ rfl rfl hok.valueBytes]
-  rw [List.cons_append, hgo_cons_cont orig CR _ _ _ _ (hstep_cr orig _ _ _)]
-  try dsimp only
-  have hpos : pre.length + n.length + 1 + 1 + v.length + 1 = pre.length + (n.length + 2 + v.length + 2) - 1 := by omega
-  have e_orig : orig = (pre ++ n ++ [COLON, SP]) ++ v ++ ([CR, LF] ++ post) := by
-    rw [← horig]; simp [hline, List.append_assoc]
-  have hslice : sliceGet orig pre.length (pre.length + n.length) = some n := by
-    have : orig = pre ++ n ++ ([COLON, SP] ++ v ++ [CR, LF] ++ post) := by rw [← horig]; simp [hline, List.append_assoc]
-    rw [this]; exact sliceGet_mid pre n _
-  have hl1 : (pre ++ n ++ [COLON, SP]).length = pre.length + n.length + 2 := by
-    simp only [List.length_append, List.length_cons, List.length_nil]
-  have hval : extract orig (pre.length + n.length + 1 + 1) (pre.length + n.length + 1 + 1 + v.length + 1 - 1) = v := by
-    have := extract_mid (pre ++ n ++ [COLON, SP]) v ([CR, LF] ++ post)
-    rw [hl1, ← e_orig] at this
-    have e : pre.length + n.length + 1 + 1 + v.length + 1 - 1 = pre.length + n.length + 2 + v.length := by omega
-    rw [e]; exact this
-  have hcrat : orig[pre.length + n.length + 1 + 1 + v.length + 1 - 1]? = some CR := by
-    rw [e_orig]
-    have e : pre.length + n.length + 1 + 1 + v.length + 1 - 1 = (pre ++ n ++ [COLON, SP] ++ v).length := by
-      simp only [List.length_append, List.length_cons, List.length_nil]; omega
-    rw [e, List.getElem?_append_right (Nat.le_refl _)]
-    simp
-  have hlf := hstep_lf orig post (pre.length + n.length + 1 + 1 + v.length + 1)
-    { inValue := true, lf := 0, nameStart := st.nameStart, nameEnd := pre.length + n.length, valueStart := pre.length + n.length + 1 + 1, hdrs := st.hdrs }
-    n rfl rfl (by simpa [hns] using hslice) hok.name hcrat (by simp only; omega)
-    (by rw [← horig]; simp only [hline, List.length_append, List.length_cons, List.length_nil]; omega)
-    (by simp only; rw [hval]; exact hok.value)
-  simp only at hlf
-  rw [hval] at hlf
-  refine ⟨{ lf := 1, nameStart := pre.length + n.length + 1 + 1 + v.length + 1 + 1, nameEnd := pre.length + n.length, valueStart := pre.length + n.length + 1 + 1, hdrs := hinsert st.hdrs n v }, ?_, ?_⟩
-  · show hgo orig (LF :: post) _ _ = _
-    rw [hgo_cons_cont orig LF _ _ _ _ hlf]
-    congr 1
-    simp only [List.length_append, List.length_cons, List.length_nil]; omega
-  · refine ⟨rfl, rfl, ?_, rfl⟩
-    simp only [List.length_append, List.length_cons, List.length_nil]; omega
+      refine ⟨c, r ++ h.o2 ++ h.eol ++ post, by simp, ?_⟩
+      have := hok.noOuterOws.1; rw [hvv] at this
+      simpa using this
+  obtain ⟨c, r, hcr, hc⟩ := htail
+  have hskip : skipWhile isOws (h.o1 ++ (h.v ++ h.o2 ++ h.eol ++ post)) = h.o1.length := by
+    rw [hcr]; exact skipWhile_ows h.o1 hok.ows1 c r hc
+  have hunf : h.bytes ++ post = h.n ++ (COLON :: (h.o1 ++ (h.v ++ h.o2 ++ h.eol ++ post))) := by
+    simp [HL.bytes, List.append_assoc]
+  have hlenorig : orig.length = pre.length + h.n.length + 1 + h.o1.length + h.v.length + h.o2.length + h.eol.length + post.length := by
+    rw [← horig]; simp only [HL.bytes, List.length_append, List.length_cons, List.length_nil]; omega
+  rw [hunf]
+  -- the name
+  rw [hgo_name_seg orig h.n _ pre.length st hne hv hok.nameBytes]
+  -- the colon and the optional whitespace: either way the value starts after the whitespace
+  let stv : HSt := { inValue := true, lf := 0, nameStart := st.nameStart, nameEnd := pre.length + h.n.length, valueStart := pre.length + h.n.length + 1 + h.o1.length, hdrs := st.hdrs }
+  have hgo1 : hgo orig (COLON :: (h.o1 ++ (h.v ++ h.o2 ++ h.eol ++ post))) (pre.length + h.n.length) { st with lf := 0 } =
+      hgo orig (h.v ++ h.o2 ++ h.eol ++ post) (pre.length + h.n.length + 1 + h.o1.length) stv := by
+    cases ho1 : h.o1 with
+    | nil =>
+      -- nothing between the colon and the value / line ending
+      have hh : (h.v ++ h.o2 ++ h.eol ++ post).head? ≠ some SP := by
+        rw [hcr]; simp only [List.head?_cons, ne_eq, Option.some.injEq]
+        intro e; subst e; revert hc; decide
+      rw [ho1] at hskip
+      simp only [List.nil_append] at hskip ⊢
+      rw [hgo_cons_cont orig COLON _ _ _ _ (hstep_colon_direct orig _ _ { st with lf := 0 } hv hh (by omega))]
+      simp only [hskip, List.length_nil, stv, ho1]
+    | cons a o1' =>
+      have hrest_ows : ∀ b ∈ o1', isOws b = true := fun b hb => hok.ows1 b (by rw [ho1]; simp [hb])
+      rw [ho1] at hskip
+      by_cases ha : a = SP
+      · subst ha
+        -- colon, then the space: the space opens the value
+        rw [List.cons_append, hgo_cons_cont orig COLON _ _ _ _ (hstep_colon orig _ _ { st with lf := 0 } hv)]
+        have hall : (SP :: (o1' ++ (h.v ++ h.o2 ++ h.eol ++ post))).all isOws = false := by
+          rw [hcr]
+          simp only [List.all_cons, List.all_append, Bool.and_eq_false_iff]
+          right; right; left; exact hc
+        rw [hgo_cons_cont orig SP _ _ _ _ (hstep_sp orig _ _ { st with lf := 0, nameEnd := pre.length + h.n.length } hv hall (by omega))]
+        -- the rest of the whitespace, inside the value stage
+        rw [hgo_value_seg orig o1' _ _ _ rfl rfl (fun b hb => ows_not_crlf b (hrest_ows b hb))]
+        simp only [List.cons_append] at hskip
+        simp only [hskip, List.length_cons, stv, ho1]
+        first
+          | done
+          | (congr 1 <;> first | omega | (simp only [HSt.mk.injEq]; refine ⟨trivial, trivial, trivial, trivial, ?_, trivial⟩; omega))
+      · -- colon directly followed by a tab
+        have hh : ((a :: o1') ++ (h.v ++ h.o2 ++ h.eol ++ post)).head? ≠ some SP := by
+          simp only [List.cons_append, List.head?_cons, ne_eq, Option.some.injEq]; exact ha
+        rw [hgo_cons_cont orig COLON _ _ _ _ (hstep_colon_direct orig _ _ { st with lf := 0 } hv hh (by
+          rw [ho1] at hlenorig; simp only [List.length_cons] at hlenorig; omega))]
+        rw [hgo_value_seg orig (a :: o1') _ _ _ rfl rfl (fun b hb => ows_not_crlf b (hok.ows1 b (by rw [ho1]; exact hb)))]
+        simp only [hskip, List.length_cons, stv, ho1]
+        first
+          | done
+          | (congr 1; omega)
+  have hiv : stv.inValue = true := rfl
+  have hlf : stv.lf = 0 := rfl
+  have hnst : stv.nameStart = st.nameStart := rfl
+  have hnend : stv.nameEnd = pre.length + h.n.length := rfl
+  have hvst : stv.valueStart = pre.length + h.n.length + 1 + h.o1.length := rfl
+  have hhd : stv.hdrs = st.hdrs := rfl
+  rw [hgo1]
+  -- the value and the whitespace after it
+  rw [List.append_assoc, List.append_assoc, hgo_value_seg orig h.v _ _ stv hiv hlf hok.valueBytes]
+  rw [hgo_value_seg orig h.o2 _ _ stv hiv hlf (fun b hb => ows_not_crlf b (hok.ows2 b hb))]
+  -- positions
+  generalize hvs : pre.length + h.n.length + 1 + h.o1.length = vs at hvst ⊢
+  have e_orig : orig = (pre ++ h.n ++ [COLON] ++ h.o1) ++ (h.v ++ h.o2) ++ (h.eol ++ post) := by
+    rw [← horig]; simp [HL.bytes, List.append_assoc]
+  have hprelen : (pre ++ h.n ++ [COLON] ++ h.o1).length = vs := by
+    rw [← hvs]; simp only [List.length_append, List.length_cons, List.length_nil]
+  have hslice : sliceGet orig stv.nameStart stv.nameEnd = some h.n := by
+    rw [hnst, hns, hnend]
+    have : orig = pre ++ h.n ++ ([COLON] ++ h.o1 ++ h.v ++ h.o2 ++ h.eol ++ post) := by
+      rw [← horig]; simp [HL.bytes, List.append_assoc]
+    rw [this]; exact sliceGet_mid pre h.n _
+  -- where the value ends, seen from the LF
+  have hvend : ∀ (lfpos : Nat), (h.crlf = true → lfpos = vs + h.v.length + h.o2.length + 1) →
+      (h.crlf = false → lfpos = vs + h.v.length + h.o2.length) →
+      valueEndOf orig vs lfpos = vs + h.v.length := by
+    intro lfpos h1 h2
+    unfold valueEndOf
+    simp only
+    have hve0 : (if lfpos > vs ∧ orig[lfpos - 1]? = some CR then lfpos - 1 else lfpos) = vs + (h.v ++ h.o2).length := by
+      cases hcl : h.crlf with
+      | true =>
+        have hl := h1 hcl
+        have hcrat : orig[lfpos - 1]? = some CR := by
+          rw [e_orig, hl]
+          have e : vs + h.v.length + h.o2.length + 1 - 1 = ((pre ++ h.n ++ [COLON] ++ h.o1) ++ (h.v ++ h.o2)).length := by
+            rw [List.length_append, hprelen, List.length_append]; omega
+          rw [e, List.getElem?_append_right (Nat.le_refl _)]
+          simp [HL.eol, hcl]
+        rw [if_pos ⟨by omega, hcrat⟩, hl, List.length_append]; omega
+      | false =>
+        have hl := h2 hcl
+        have hnocr : ¬ (lfpos > vs ∧ orig[lfpos - 1]? = some CR) := by
+          intro ⟨hgt, hcrr⟩
+          -- the byte before the LF belongs to the value or the whitespace after it: not a CR
+          rw [e_orig, hl] at hcrr
+          have hlt : vs + h.v.length + h.o2.length - 1 < ((pre ++ h.n ++ [COLON] ++ h.o1) ++ (h.v ++ h.o2)).length := by
+            rw [List.length_append, hprelen, List.length_append]; omega
+          rw [List.getElem?_append_left hlt, List.getElem?_append_right (by rw [hprelen]; omega)] at hcrr
+          have hmem := List.mem_of_getElem? hcrr
+          rcases List.mem_append.1 hmem with hm | hm
+          · exact (hok.valueBytes CR hm).1 rfl
+          · exact (ows_not_crlf CR (hok.ows2 CR hm)).1 rfl
+        rw [if_neg hnocr, hl, List.length_append]; omega
+    rw [hve0]
+    have hsl := sliceGet_mid (pre ++ h.n ++ [COLON] ++ h.o1) (h.v ++ h.o2) (h.eol ++ post)
+    rw [hprelen, ← e_orig] at hsl
+    rw [hsl]
+    simp only
+    cases hvv : h.v with
+    | nil =>
+      have := hok.emptyValue hvv
+      simp [this, trimEndLen]
+    | cons _ _ =>
+      rw [← hvv, trimEndLen_append h.v h.o2 hok.ows2 hok.noOuterOws.2]
+  have hextract : extract orig vs (vs + h.v.length) = h.v := by
+    have e2 : orig = (pre ++ h.n ++ [COLON] ++ h.o1) ++ h.v ++ (h.o2 ++ h.eol ++ post) := by
+      rw [e_orig]; simp [List.append_assoc]
+    have := extract_mid (pre ++ h.n ++ [COLON] ++ h.o1) h.v (h.o2 ++ h.eol ++ post)
+    rw [hprelen, ← e2] at this
+    exact this
+  -- the line ending
+  unfold HL.eol at hlenorig hvend ⊢
+  cases hcl : h.crlf with
+  | true =>
+    simp only [hcl, ↓reduceIte, List.length_cons, List.length_nil] at hlenorig ⊢
+    rw [List.cons_append, hgo_cons_cont orig CR _ _ _ _ (hstep_cr orig _ _ _)]
+    have hve := hvend (vs + h.v.length + h.o2.length + 1) (fun _ => rfl) (fun hc' => by rw [hcl] at hc'; cases hc')
+    have hlf' := hstep_lf orig post (vs + h.v.length + h.o2.length + 1) stv h.n hiv hlf hslice hok.name
+      (by rw [hvst]; omega) (by omega) (by rw [hvst, hve, hextract]; exact hok.value)
+    rw [hvst, hve, hextract] at hlf'
+    refine ⟨{ stv with lf := 1, inValue := false, nameStart := vs + h.v.length + h.o2.length + 1 + 1, valueStart := vs, hdrs := hinsert stv.hdrs h.n h.v }, ?_, rfl, rfl, ?_, rfl⟩
+    · show hgo orig (LF :: post) _ _ = _
+      rw [hgo_cons_cont orig LF _ _ _ _ hlf']
+      congr 1
+      simp only [HL.bytes, HL.eol, hcl, ↓reduceIte, List.length_append, List.length_cons, List.length_nil]; omega
+    · simp only [HL.bytes, HL.eol, hcl, ↓reduceIte, List.length_append, List.length_cons, List.length_nil]; omega
+  | false =>
+    simp only [hcl, Bool.false_eq_true, ↓reduceIte, List.length_cons, List.length_nil] at hlenorig ⊢
+    have hve := hvend (vs + h.v.length + h.o2.length) (fun hc' => by rw [hcl] at hc'; cases hc') (fun _ => rfl)
+    have hlf' := hstep_lf orig post (vs + h.v.length + h.o2.length) stv h.n hiv hlf hslice hok.name
+      (by rw [hvst]; omega) (by omega) (by rw [hvst, hve, hextract]; exact hok.value)
+    rw [hvst, hve, hextract] at hlf'
+    refine ⟨{ stv with lf := 1, inValue := false, nameStart := vs + h.v.length + h.o2.length + 1, valueStart := vs, hdrs := hinsert stv.hdrs h.n h.v }, ?_, rfl, rfl, ?_, rfl⟩
+    · show hgo orig (LF :: post) _ _ = _
+      rw [hgo_cons_cont orig LF _ _ _ _ hlf']
+      congr 1
+      simp only [HL.bytes, HL.eol, hcl, Bool.false_eq_true, ↓reduceIte, List.length_append, List.length_cons, List.length_nil]; omega
+    · simp only [HL.bytes, HL.eol, hcl, Bool.false_eq_true, ↓reduceIte, List.length_append, List.length_cons, List.length_nil]; omega
 
-def hlines (hs : List (Bytes × Bytes)) : Bytes := (hs.map fun h => hline h.1 h.2).flatten
+def hlines (hs : List HL) : Bytes := (hs.map HL.bytes).flatten
 
-def insertAll (acc : List (Bytes × Bytes)) (hs : List (Bytes × Bytes)) : List (Bytes × Bytes) :=
-  hs.foldl (fun a h => hinsert a h.1 h.2) acc
+def insertAll (acc : List (Bytes × Bytes)) (hs : List HL) : List (Bytes × Bytes) :=
+  hs.foldl (fun a h => hinsert a h.n h.v) acc
 
-theorem hgo_lines : ∀ (hs : List (Bytes × Bytes)) (pre post : Bytes) (st : HSt), (∀ h ∈ hs, HeaderOk h.1 h.2) →
+theorem hgo_lines : ∀ (hs : List HL) (pre post : Bytes) (st : HSt), (∀ h ∈ hs, h.Ok) →
     st.inValue = false → st.nameStart = pre.length →
     ∃ st', hgo (pre ++ hlines hs ++ post) (hlines hs ++ post) pre.length st =
         hgo (pre ++ hlines hs ++ post) post (pre.length + (hlines hs).length) st' ∧
@@ -194,18 +370,18 @@ theorem hgo_lines : ∀ (hs : List (Bytes × Bytes)) (pre post : Bytes) (st : HS
     exact ⟨st, by simp [hlines], hv, by simp, by simp [hlines, hns], by simp [insertAll]⟩
   | cons h hs ih =>
     intro pre post st hok hv hns
-    obtain ⟨st1, e1, hv1, hl1, hns1, hh1⟩ := hgo_line pre (hlines hs ++ post) h.1 h.2 (hok h (by simp)) st hv hns
-    have hns1' : st1.nameStart = (pre ++ hline h.1 h.2).length := by rw [hns1]; simp
-    obtain ⟨st2, e2, hv2, hl2, hns2, hh2⟩ := ih (pre ++ hline h.1 h.2) post st1 (fun x hx => hok x (by simp [hx])) hv1 hns1'
-    have eo : pre ++ hlines (h :: hs) ++ post = pre ++ hline h.1 h.2 ++ (hlines hs ++ post) := by
+    obtain ⟨st1, e1, hv1, hl1, hns1, hh1⟩ := hgo_line pre (hlines hs ++ post) h (hok h (by simp)) st hv hns
+    have hns1' : st1.nameStart = (pre ++ h.bytes).length := by rw [hns1]; simp
+    obtain ⟨st2, e2, hv2, hl2, hns2, hh2⟩ := ih (pre ++ h.bytes) post st1 (fun x hx => hok x (by simp [hx])) hv1 hns1'
+    have eo : pre ++ hlines (h :: hs) ++ post = pre ++ h.bytes ++ (hlines hs ++ post) := by
       simp [hlines, List.append_assoc]
-    have eo2 : pre ++ hline h.1 h.2 ++ hlines hs ++ post = pre ++ hline h.1 h.2 ++ (hlines hs ++ post) := by
+    have eo2 : pre ++ h.bytes ++ hlines hs ++ post = pre ++ h.bytes ++ (hlines hs ++ post) := by
       simp [List.append_assoc]
-    have er : hlines (h :: hs) ++ post = hline h.1 h.2 ++ (hlines hs ++ post) := by simp [hlines, List.append_assoc]
+    have er : hlines (h :: hs) ++ post = h.bytes ++ (hlines hs ++ post) := by simp [hlines, List.append_assoc]
     refine ⟨st2, ?_, hv2, ?_, ?_, ?_⟩
     · rw [eo, er, e1]
       rw [eo2] at e2
-      have : (pre ++ hline h.1 h.2).length = pre.length + (hline h.1 h.2).length := by simp
+      have : (pre ++ h.bytes).length = pre.length + h.bytes.length := by simp
       rw [this] at e2
       rw [e2]
       congr 1
@@ -215,8 +391,9 @@ theorem hgo_lines : ∀ (hs : List (Bytes × Bytes)) (pre post : Bytes) (st : HS
     · rw [hh2, hh1]; simp [insertAll]
 
 /-- **`parse::headers` on a rendered header section** (at least one header; whatever follows the blank line): the
-headers in order of insertion, names lower-cased, values byte for byte, and the number of bytes the section occupies -/
-theorem parseHeaders_render (hs : List (Bytes × Bytes)) (hne : hs ≠ []) (hok : ∀ h ∈ hs, HeaderOk h.1 h.2) (body : Bytes) :
+headers in order of insertion, names lower-cased, values byte for byte without the optional whitespace around them,
+and the number of bytes the section occupies -/
+theorem parseHeaders_render (hs : List HL) (hne : hs ≠ []) (hok : ∀ h ∈ hs, h.Ok) (body : Bytes) :
     parseHeaders (hlines hs ++ [CR, LF] ++ body) = .ok (insertAll [] hs, (hlines hs).length + 2) := by
   unfold parseHeaders
   obtain ⟨st', e, _, hl, _, hh⟩ := hgo_lines hs [] ([CR, LF] ++ body) {} hok rfl rfl
@@ -416,7 +593,7 @@ theorem rstep_headers (orig : Bytes) (b : UInt8) (pos : Nat) (st : RSt) (H : Lis
   simp [rstep, hs, h1, h2, h3, hp]
 
 /-- the head of a request as the grammar writes it -/
-def renderHead (m t v : Bytes) (hs : List (Bytes × Bytes)) : Bytes := reqLine m t v ++ hlines hs ++ [CR, LF]
+def renderHead (m t v : Bytes) (hs : List HL) : Bytes := reqLine m t v ++ hlines hs ++ [CR, LF]
 
 def hostOf (hdrs : List (Bytes × Bytes)) (dflt : Option Bytes) : Option Bytes :=
   match (hdrs.find? (·.1 == HOST)).map (·.2) with
@@ -424,7 +601,7 @@ def hostOf (hdrs : List (Bytes × Bytes)) (dflt : Option Bytes) : Option Bytes :
   | none => dflt
 
 /-- the checks and slices after the loop (everything but the host) -/
-theorem requestHead_tail (m t v : Bytes) (hs : List (Bytes × Bytes)) (body orig host : Bytes) (hline : LineOk m t v)
+theorem requestHead_tail (m t v : Bytes) (hs : List HL) (body orig host : Bytes) (hline : LineOk m t v)
     (e1 : orig = reqLine m t v ++ (hlines hs ++ [CR, LF] ++ body)) :
     (if m.length + 1 + t.length > orig.length then (Res.panic "range end index out of range for slice" : Res Err Head)
       else if m.length > 7 then Res.panic "range end index out of range for slice"
@@ -461,8 +638,8 @@ theorem requestHead_tail (m t v : Bytes) (hs : List (Bytes × Bytes)) (body orig
 
 /-- **a rendered request parses back to its parts** — method, target, version, every header, and the offset at which
 the body starts — whatever bytes follow the head (the body, the next request). -/
-theorem requestHead_render (m t v : Bytes) (hs : List (Bytes × Bytes)) (body : Bytes) (dflt : Option Bytes) (host : Bytes)
-    (hline : LineOk m t v) (hne : hs ≠ []) (hhs : ∀ h ∈ hs, HeaderOk h.1 h.2)
+theorem requestHead_render (m t v : Bytes) (hs : List HL) (body : Bytes) (dflt : Option Bytes) (host : Bytes)
+    (hline : LineOk m t v) (hne : hs ≠ []) (hhs : ∀ h ∈ hs, h.Ok)
     (hhost : hostOf (insertAll [] hs) dflt = some host) :
     requestHead (renderHead m t v hs ++ body) dflt =
       .ok ⟨m, t, v, host, insertAll [] hs, (renderHead m t v hs).length⟩ := by
@@ -480,8 +657,11 @@ theorem requestHead_render (m t v : Bytes) (hs : List (Bytes × Bytes)) (body : 
     | nil => have := hok0.name; rw [hh] at this; simp [validName] at this
     | cons c n' => exact ⟨c, n', rfl⟩
   have hcb := hok0.nameBytes c (by rw [hn0]; simp)
-  have hsec : hlines hs ++ [CR, LF] ++ body = c :: (n' ++ [COLON, SP] ++ h0.2 ++ [CR, LF] ++ hlines hs' ++ [CR, LF] ++ body) := by
-    rw [hhs0]; simp [hlines, Http1.hline, hn0, List.append_assoc]
+  have hsec : ∃ rest', hlines hs ++ [CR, LF] ++ body = c :: rest' := by
+    rw [hhs0]
+    simp only [hlines, List.map_cons, List.flatten_cons, HL.bytes, hn0, List.append_assoc, List.cons_append]
+    exact ⟨_, rfl⟩
+  obtain ⟨rest', hsec⟩ := hsec
   -- the request line
   have hrl := rgo_line m t v (hlines hs ++ [CR, LF] ++ body) hline
   rw [← e1] at hrl
@@ -515,15 +695,16 @@ theorem requestHead_render (m t v : Bytes) (hs : List (Bytes × Bytes)) (body : 
     rw [hsel]
     exact requestHead_tail m t v hs body orig host hline e1
 
-/-! tests: the hypotheses are satisfiable — `GET /a HTTP/1.1`, `Host: x`, `X-A: b c` — and the theorem's instance for
-them, checked once more by evaluation -/
+/-! tests: the hypotheses are satisfiable — `GET /a HTTP/1.1`, `Host: x`, `X-A:<tab> b c <space><tab>` with a bare LF —
+and the theorem's instance for them, checked once more by evaluation -/
 example : LineOk [71, 69, 84] [47, 97] [72, 84, 84, 80, 47, 49, 46, 49] :=
   ⟨by decide, by decide, by decide, by decide, by decide⟩
-example : HeaderOk [72, 111, 115, 116] [120] ∧ HeaderOk [88, 45, 65] [98, 32, 99] :=
-  ⟨⟨by decide, by decide, by decide, by decide, by decide⟩, ⟨by decide, by decide, by decide, by decide, by decide⟩⟩
+example : HL.Ok ⟨[72, 111, 115, 116], [120], [32], [], true⟩ ∧ HL.Ok ⟨[88, 45, 65], [98, 32, 99], [9, 32], [32, 9], false⟩ :=
+  ⟨⟨by decide, by decide, by decide, by decide, by decide, by decide, by decide, by decide⟩,
+   ⟨by decide, by decide, by decide, by decide, by decide, by decide, by decide, by decide⟩⟩
 example : requestHead (renderHead [71, 69, 84] [47, 97] [72, 84, 84, 80, 47, 49, 46, 49]
-      [([72, 111, 115, 116], [120]), ([88, 45, 65], [98, 32, 99])] ++ [1, 2, 3]) none =
+      [⟨[72, 111, 115, 116], [120], [32], [], true⟩, ⟨[88, 45, 65], [98, 32, 99], [9, 32], [32, 9], false⟩] ++ [1, 2, 3]) none =
     .ok ⟨[71, 69, 84], [47, 97], [72, 84, 84, 80, 47, 49, 46, 49], [120],
-      [([104, 111, 115, 116], [120]), ([120, 45, 97], [98, 32, 99])], 38⟩ := by decide +kernel
+      [([104, 111, 115, 116], [120]), ([120, 45, 97], [98, 32, 99])], 40⟩ := by decide +kernel
 
 end Http1
